@@ -141,6 +141,7 @@ func runTcp(d *driver, page int, rep *tcpReport) {
 		}
 	}
 
+	txDone := false
 	checkOthers := func() {
 		// first-block-timestamp
 		rep.Evaluations++
@@ -173,7 +174,8 @@ func runTcp(d *driver, page int, rep *tcpReport) {
 		rep.Evaluations++
 		rep.Hist["transaction"]++
 		tx, err := w.otherTx(w.last())
-		if err == nil {
+		if err == nil && !txDone {
+			txDone = true
 			req, _ := json.Marshal(ledger.NewTransactionRequest(tx, "127.0.0.1:7003"))
 			w.drainSignals()
 			base := runtime.NumGoroutine()
